@@ -82,3 +82,4 @@ LEVEL = {
 
 CFG['rule'] = CFG['rule'] + ' ' + "Additions: half of the updates rewrite the point's OWN stored text into a variant (a word dropped, doubled, replaced or case-changed) and queries are drawn from recently written texts, so that stale postings and stale term frequencies are hit."
 CFG['rule'] = CFG['rule'] + ' ' + 'One text in 25 writes one term 250..270 times (more than a byte counts) next to one other word.'
+CFG['rule'] = CFG['rule'] + ' ' + 'One history in three indexes the text under a property name of 47 bytes (map keys of 32 bytes and more are encoded with another header).'
